@@ -287,6 +287,10 @@ def execute(root, proj, cfg, ops):
                     c.vio('builds', 'an accepted script does not build:\n' +
                           r.output[-900:])
                     break
+                for out, inp in (getattr(r, 'races', []) +
+                                 getattr(r, 'missing_at_start', [])):
+                    c.vio('single-writer', 'schedule race between steps: {} '
+                          'vs {}'.format(out, inp))
                 writers = {}
                 for s in r.steps:
                     key = Graph.key_of(s)
@@ -357,9 +361,12 @@ def execute(root, proj, cfg, ops):
 def run_case(seed, root, params=None):
     params = params or {}
     rng = random.Random(seed)
-    cfg = {'clock_mode': 'strict', 'bufsize': 4096, 'seed': seed}
+    backend = rng.choice(params.get('backends', ['make', 'ninja']))
+    cfg = {'clock_mode': 'strict', 'bufsize': 4096, 'seed': seed,
+           'jobs': rng.choice([1, 2, 4, 8])}
     for _ in range(20):
         proj = CollideGen(rng).generate()
+        proj.backend = backend
         if not file_dir_clash(proj.model):
             break
     ops = []
@@ -422,7 +429,7 @@ def summarise(case):
     return {
         'seed': case['seed'],
         'violations': [v.to_json() for v in case['violations']],
-        'stats': st,
+        'stats': dict(st, **{'backend.' + proj.backend: 1}),
         'nontrivial': bool(st.get('accepted') or
                            any(k.startswith('rejected.') for k in st)),
         'shape': hashlib.sha256(shape.encode()).hexdigest()[:16],
